@@ -77,8 +77,14 @@ func verifNondetBytes(name string, n int) []byte {
 	for i := range b {
 		b[i] = seed + byte(i*13) + byte(i>>8)
 	}
+	if n > 0 {
+		// remember the content of the whole block (verifWroteCaller compares against it)
+		verifCallerBlocks[&b[0]] = append([]byte(nil), b...)
+	}
 	return b
 }
+
+var verifCallerBlocks = map[*byte][]byte{}
 
 // verifNewBlock: allocator stubs only.
 func verifNewBlock(tag string, n int) []byte { return make([]byte, n) }
@@ -114,7 +120,23 @@ func verifBytesStr(p []byte) string         { return string(p) }
 
 func verifGhostSet(key string, id int, v int) { verifGhost[fmt.Sprint(key, ":", id)] = v }
 func verifGhostGet(key string, id int) int    { return verifGhost[fmt.Sprint(key, ":", id)] }
-func verifWroteCaller(p []byte) bool          { return false }
+// has anybody written into the block p was cut from (its whole capacity) since it was created?
+func verifWroteCaller(p []byte) bool {
+	if cap(p) == 0 {
+		return false
+	}
+	full := p[:cap(p)]
+	orig, ok := verifCallerBlocks[&full[0]]
+	if !ok || len(orig) != len(full) {
+		return false
+	}
+	for i := range full {
+		if full[i] != orig[i] {
+			return true
+		}
+	}
+	return false
+}
 
 // verifSnapshot remembers the current content of p (and p itself); verifUnchanged compares.
 func verifSnapshot(p []byte) int {
